@@ -1,28 +1,15 @@
 /-
-  Certificate obligations, parts 40..47 of 64 of the `current` client system (kernel evaluation; 8 modules
-  so that lake checks them in parallel; small parts keep the kernel's memory small).
-  Assembled in `Lemmas/CliCert.lean`.
+  Certificate obligations, parts 10..11 of 16 of the `current` client system (kernel evaluation; 8 modules
+  so that lake checks them in parallel). Assembled in `Lemmas/CliCert.lean`.
 -/
 import KmipModel.Model.CliConn
 import KmipModel.Gen.CertCliConn
 namespace Kmip.CliCert
 open Kmip.CliLts Kmip.CliConn Kmip.Gen.CertCliConn
 
-theorem cuClosed40 : partClosed (sys current) codec certCurrent cuP40 = true := by decide +kernel
-theorem cuSafe40 : partSafe codec (badPartial current) cuP40 = true := by decide +kernel
-theorem cuClosed41 : partClosed (sys current) codec certCurrent cuP41 = true := by decide +kernel
-theorem cuSafe41 : partSafe codec (badPartial current) cuP41 = true := by decide +kernel
-theorem cuClosed42 : partClosed (sys current) codec certCurrent cuP42 = true := by decide +kernel
-theorem cuSafe42 : partSafe codec (badPartial current) cuP42 = true := by decide +kernel
-theorem cuClosed43 : partClosed (sys current) codec certCurrent cuP43 = true := by decide +kernel
-theorem cuSafe43 : partSafe codec (badPartial current) cuP43 = true := by decide +kernel
-theorem cuClosed44 : partClosed (sys current) codec certCurrent cuP44 = true := by decide +kernel
-theorem cuSafe44 : partSafe codec (badPartial current) cuP44 = true := by decide +kernel
-theorem cuClosed45 : partClosed (sys current) codec certCurrent cuP45 = true := by decide +kernel
-theorem cuSafe45 : partSafe codec (badPartial current) cuP45 = true := by decide +kernel
-theorem cuClosed46 : partClosed (sys current) codec certCurrent cuP46 = true := by decide +kernel
-theorem cuSafe46 : partSafe codec (badPartial current) cuP46 = true := by decide +kernel
-theorem cuClosed47 : partClosed (sys current) codec certCurrent cuP47 = true := by decide +kernel
-theorem cuSafe47 : partSafe codec (badPartial current) cuP47 = true := by decide +kernel
+theorem cuClosed10 : partClosed (sys current) codec certCurrent cuP10 = true := by decide +kernel
+theorem cuSafe10 : partSafe codec (bad current) cuP10 = true := by decide +kernel
+theorem cuClosed11 : partClosed (sys current) codec certCurrent cuP11 = true := by decide +kernel
+theorem cuSafe11 : partSafe codec (bad current) cuP11 = true := by decide +kernel
 
 end Kmip.CliCert
